@@ -20,7 +20,7 @@ type Desc struct {
 	ID     string // id class ("-" when the template has no {id})
 	Act    string // "-" no query | "=name" | "unknown" | "empty" | "dup:name" (?action=name&action=nosuch) | "dup2:name" (?action=nosuch&action=name)
 	Body   string // body class
-	CT     string // "j" application/json | "n" none
+	CT     string // "j" application/json | "n" none | "j!h.k" application/json and the k-th call this request makes to the REST API of replica node h fails in transit (controller side only)
 }
 
 func (d Desc) String() string {
@@ -49,6 +49,19 @@ func (d Desc) Action() string {
 }
 
 var Methods = []string{"GET", "POST", "PUT", "DELETE", "PATCH"}
+
+// OutboundFaults are the "h.k" fault points of the controller-side alphabet: the k-th REST call to replica node h
+// (1 = 10.0.0.1) made while the request is served fails.  Counting per destination keeps the point the same whatever
+// order the controller's fan-out goroutines run in.
+var OutboundFaults = []string{"1.1", "1.2", "2.1", "2.2"}
+
+// FaultOf returns the fault point of a descriptor (0, 0 when it has none).
+func (d Desc) FaultOf() (node, k int) {
+	if i := strings.Index(d.CT, "!"); i >= 0 {
+		fmt.Sscanf(d.CT[i+1:], "%d.%d", &node, &k)
+	}
+	return
+}
 
 type field struct{ K, V string } // V is a raw JSON value
 
@@ -597,6 +610,17 @@ func Alphabet(side string, reduced bool) []Desc {
 							}
 						}
 					}
+					if side == "C" && r.Mut {
+						// one failing call at every point: the well-formed request again, with the k-th call it makes to the
+						// REST API of one replica failing in transit (connection reset before the request is delivered)
+						body := "none"
+						if r.Body != nil {
+							body = "valid"
+						}
+						for _, ft := range OutboundFaults {
+							emit(Desc{side, method, tmpl, prim[0], act, body, "j!" + ft})
+						}
+					}
 					for _, id := range others {
 						cl, _ := family(r, false)
 						for _, c := range cl {
@@ -842,7 +866,7 @@ func Build(d Desc, fx Facts) (*Req, error) {
 		return nil, err
 	}
 	req := &Req{Method: d.Method, URL: path + q, Header: map[string]string{}, raw: body, hasBody: has, BodyLen: len(body)}
-	if d.CT == "j" {
+	if strings.HasPrefix(d.CT, "j") {
 		req.Header["Content-Type"] = "application/json"
 	}
 	if has {
